@@ -699,13 +699,17 @@ def _str_method(slf, name, a, k):
             return getattr(slf, name)(ch)
         if ch.alphabet == slf and len(set(slf)) == len(slf):
             return ch.idx
-        rng = range(len(slf)) if name in ("index", "find") else range(len(slf) - 1, -1, -1)
-        for i in rng:
-            if bool(ch == slf[i]):
-                return i
-        if name in ("index", "rindex"):
-            raise ValueError("substring not found")
-        return -1
+        present = _char_in(ch, slf)
+        if not bool(present):
+            if name in ("index", "rindex"):
+                raise ValueError("substring not found")
+            return -1
+        # position as one merged term (no fork per alphabet entry)
+        order = list(range(len(slf))) if name in ("index", "find") else list(range(len(slf) - 1, -1, -1))
+        r = order[-1]
+        for i in reversed(order[:-1]):
+            r = sym_ite(ch == slf[i], i, r)
+        return r
     if name in ("startswith", "endswith", "count", "replace", "split", "strip", "lstrip", "rstrip", "zfill",
                 "ljust", "rjust", "center", "encode"):
         return getattr(SxStr(list(slf)), name)(*a, **k)
